@@ -36,7 +36,7 @@ import (
 
 const unbufferedSrc = `s = 0; for (i = 0; i < 2; i++) { s += i; } for (c = 0; c < 3; c++) {} for (;s < 3; s++); f = function(){ return s + 1; }; t = f(); t`
 
-var unbufferedScript = compile(unbufferedSrc)
+var unbufferedScript = lazy(unbufferedSrc)
 
 // waitParked yields until goroutine gid is reported as blocked in a channel send.
 func waitParked(gid int64) bool {
@@ -130,7 +130,7 @@ func runUnbuffered(mode string, k int, sentinel error) (*unbufObs, error) {
 			runtime.Goexit()
 		}
 	})
-	o.out = guarded(func() (otto.Value, error) { return vm.Run(unbufferedScript) })
+	o.out = guarded(func() (otto.Value, error) { return vm.Run(unbufferedScript.get()) })
 	otto.VerifSetStepHook(vm, nil)
 	if k != -2 {
 		if len(o.delivered) > 0 {
